@@ -80,6 +80,15 @@ def main(n, seed):
                 exp_h = three_way(hp(anc), hp(ours), hp(theirs), keys)
                 exp = None if exp_h is None else {k: (None, HashInfo("md5", v)) for k, v in exp_h.items()}
                 ta, to, tt = (store(odb, anc) if anc else None), store(odb, ours), store(odb, theirs)
+                if ta is not None and set(anc) <= set(ours):
+                    # "ours" as a caller derives it in one process: load the ancestor, add / replace entries on that object, digest, store
+                    la = Tree.load(odb, ta.hash_info)
+                    for k, (m, h) in ours.items():
+                        if k not in anc or anc[k][1] != h:
+                            la.add(k, None, h)
+                    la.digest()
+                    odb.add(la.path, la.fs, la.oid)
+                    to = la
                 problem = None
                 try:
                     got = merge(odb, ta.hash_info if ta else None, to.hash_info, tt.hash_info, allowed=allowed)
@@ -139,7 +148,7 @@ def main(n, seed):
                 fails.append(None)
     nf = len(fails)
     return {"evaluations": evals, "distinct_nontrivial": evals, "failures": [f for f in fails if f][:3], "n_failures": nf,
-            "exhaustive_within_bound": not (n and n < len(dicts) ** 3), "bound": "3-key universe (incl. a nested key), values {absent, v1, v2, v1-with-other-metadata}, 4 policies; merge() through a store on every 40th triple, also with the ancestor listing missing from the store"}
+            "exhaustive_within_bound": not (n and n < len(dicts) ** 3), "bound": "3-key universe (incl. a nested key), values {absent, v1, v2, v1-with-other-metadata}, 4 policies; merge() through a store on every 40th triple, also with the ancestor listing missing from the store and with 'ours' derived from the loaded ancestor object"}
 
 
 if __name__ == "__main__":
